@@ -193,6 +193,15 @@ def depfile_wiring(ctx):
            'the per-object depfile (next to the first output) is not '
            'included with optional=True (a missing depfile must not stop '
            'the build)')
+    # one include per object: the only condition is the deps flavor (the
+    # recipe is defined once per compiler, the depfile is per edge)
+    ok = bool(inc) and all(
+        all(has(F.atoms(t, f_), 'deps_flavor')
+            for f_, n_ in e.path for t in F.guards(n_, f_)) for e in inc)
+    ctx.ob(R, 'make_compile|include-per-object', ok, mk.node,
+           'the depfile is included only under a further condition (e.g. '
+           'the define-the-recipe-once test): later objects of the same '
+           'compiler never get their depfile read back')
     for e in inc:
         suffixes |= {('make-include', x) for x in _suffixes(e.arg(0))}
     at = [e for e in F.calls_to(mk, 'add_target', depth=1) if own(e)]
